@@ -400,9 +400,11 @@ def shrink(ctx, case):
 def run(ctx):
     ctx.rule = ('a case is a whole update sequence on a real HallOfFame / ParetoFront / GenerationKeeper; exhaustive: every '
                 'sequence (up to renaming of individuals) of U updates with populations of <= P individuals, <= N distinct '
-                'individuals over a 3-letter dyadic fitness alphabet (repeats, ties, empty populations), for 12 hall-of-fame, '
-                '8 (thorough 16) Pareto-front and 10 keeper configurations (k 1..4, capacity 0..3, 1..3 objectives); random: sequences of '
-                '<= 30 updates over pools of <= 14 individuals; evaluations = updates compared; distinct = distinct sequence; '
+                'individuals over a 3-letter dyadic fitness alphabet (repeats, ties, empty populations; the observations after '
+                'every prefix are compared), for 12 hall-of-fame, 8 (thorough 16) Pareto-front and 10 keeper configurations '
+                '(k 1..4, capacity 0..3, both similarity functions, 1..3 objectives); quick: U2 P2; thorough: U3 P2 N3, U2 P3 N3 '
+                '(not for the 4-kind _individuals_same fronts), U4 P1 N4; random: sequences of <= 30 updates over pools of <= 14 '
+                'individuals incl. anti-chains that fill the front; evaluations = updates compared; distinct = distinct sequence; '
                 'non-trivial = >= 2 individuals shown and a tie, a repeat, more individuals than the capacity or >= 3 individuals')
     ctx.trusted_extra = [
         'fitness values of the correspondence are dyadic and pairwise identical or far apart, so binary64 comparisons and '
@@ -412,14 +414,18 @@ def run(ctx):
         'a fitness comparison that raises (mixed classes / lengths) is outside the model; maxsize=0 raising IndexError is modelled']
     cfgs = configs(ctx)
     # ---- exhaustive small scope
-    scopes = ctx.pick([(2, 2, 5)], [(3, 2, 5), (2, 3, 4)])
-    if ctx.scale > 1:
-        scopes = [(3, 2, 4), (2, 3, 4)]
+    # (U updates, P individuals per population, N distinct individuals, which configurations)
+    every = lambda t: True
+    three_kinds = lambda t: not (t[0] == 'pareto' and t[1] == 'same')
+    scopes = ctx.pick([((2, 2, 5), every)],
+                      [((3, 2, 3), every), ((2, 3, 3), three_kinds), ((4, 1, 4), every)])
+    if ctx.scale > 1 and ctx.tier == 'quick':      # escalated search after a disagreement
+        scopes = [((3, 2, 3), three_kinds), ((2, 2, 5), every)]
     first = True
-    for scope in scopes:
-        cases = list(exhaustive_cases(ctx, scope, cfgs))
+    for scope, want in scopes:
+        cases = list(exhaustive_cases(ctx, scope, [c for c in cfgs if want(c[0])]))
         group = 'exhaustive U%d P%d N%d' % scope
-        batch = 20000
+        batch = 40000
         for i in range(0, len(cases), batch):
             res = evaluate(ctx, group, cases[i:i + batch], canary=first)
             first = False
@@ -428,7 +434,7 @@ def run(ctx):
                     ctx.sample({'case': case, 'observed': obs, 'agree': ag, 'holds': ho})
         ctx.set_exhaustive(group, True)
     # ---- random longer sequences
-    n = ctx.budget(400, 6000)
+    n = ctx.budget(400, 4000)
     cases = [random_case(ctx) for _ in range(n)]
     res = evaluate(ctx, 'random sequences', cases)
     ctx.set_exhaustive('random sequences', False)
